@@ -528,8 +528,9 @@ type Clause struct {
 }
 
 type LoopSpec struct {
-	Invs []Clause
-	Dec  *Clause
+	Invs  []Clause
+	Dec   *Clause
+	Frame bool // heap locations allocated before the function was entered keep, across the loop, the values they had at loop entry (unless written through loop-invariant references)
 }
 
 type Contract struct {
@@ -754,6 +755,15 @@ func parseSpecLines(pkg string, lines []string, poss []string) (*SpecFile, error
 		case "loop":
 			// loop N invariant e | loop N decreases e
 			parts := strings.SplitN(rest, " ", 3)
+			if len(parts) == 2 && parts[1] == "frame" {
+				var n int
+				fmt.Sscanf(parts[0], "%d", &n)
+				if cur.Loops[n] == nil {
+					cur.Loops[n] = &LoopSpec{}
+				}
+				cur.Loops[n].Frame = true
+				break
+			}
 			if len(parts) < 3 {
 				return nil, perr(fmt.Errorf("bad loop clause"))
 			}
